@@ -1,0 +1,36 @@
+//go:build verif
+
+package textmatch
+
+import (
+	"reflect"
+	"unicode"
+)
+
+// VerifDescribe reports which matcher Compile chose for a pattern: its kind, the literal it
+// holds as a string and as bytes (both copies are used by MatchString and Match respectively),
+// and for the rune-predicate matcher the name of the predicate.
+func VerifDescribe(p Pattern) (kind string, s string, b []byte) {
+	switch m := p.(type) {
+	case *containsLiteralMatcher:
+		return "contains", m.value.s, m.value.b
+	case *prefixLiteralMatcher:
+		return "prefix", m.value.s, m.value.b
+	case *suffixLiteralMatcher:
+		return "suffix", m.value.s, m.value.b
+	case *eqLiteralMatcher:
+		return "eq", m.value.s, m.value.b
+	case *prefixRunePredMatcher:
+		switch reflect.ValueOf(m.pred).Pointer() {
+		case reflect.ValueOf(unicode.IsUpper).Pointer():
+			return "pred", "IsUpper", nil
+		case reflect.ValueOf(unicode.IsLower).Pointer():
+			return "pred", "IsLower", nil
+		}
+		return "pred", "?", nil
+	}
+	if IsRegexp(p) {
+		return "regexp", "", nil
+	}
+	return "?", "", nil
+}
